@@ -526,7 +526,11 @@ class MaildirPart:
                     for layout in ('++', 'fs'):
                         self.jobs.append({'cfg': (layout, self.store_root, tmp), 'hist': h,
                                           'hid': hid, 'nonce': nonce, 'template': templates[layout],
-                                          'points': None, 'pseed': run.seed})
+                                          'points': None, 'pseed': run.seed,
+                                          # failing system calls (operation k raises ENOSPC /
+                                          # EXDEV / EIO instead of being performed)
+                                          'fail': ('std' if layout == '++' and rnd == 0 else None)
+                                          if tier == 'quick' else 'all'})
                     hid += 1
             # MOVE is acknowledged after its last filesystem operation, so only the runs that
             # are NOT killed exercise "after a completed MOVE in exactly one": more of those
@@ -618,7 +622,7 @@ class MaildirPart:
                 traces.append(tr['events'])
                 meta.append({'hid': job['hid'], 'hist': job['hist'], 'layout': r['cfg'],
                              'k': tr['k'], 'L': r['L'], 'line': r.get('line', ''),
-                             'failed': tr['failed']})
+                             'failed': tr['failed'], 'fault': tr.get('fault', 'kill')})
         selftests = _md_selftests(traces, meta)
         n_real = len(traces)
         t0 = time.time()
@@ -644,6 +648,8 @@ class MaildirPart:
         acked_kills = 0
         windows = {'partial': 0, 'complete_unacked': 0}
         points = 0
+        fails: dict = {}
+        fail_conds: dict = {}
         for i in range(n_real):
             line, clause, used = verdicts[i + 1]
             m, ev = meta[i], traces[i]
@@ -659,7 +665,11 @@ class MaildirPart:
             pf['runs'] += 1
             pl = per_layout.setdefault(m['layout'], {'runs': 0, 'crash_points': 0, 'accepted': 0})
             pl['runs'] += 1
-            if m['k'] >= 0:
+            if m['fault'] != 'kill':
+                fails[m['fault']] = fails.get(m['fault'], 0) + 1
+                key = ack['cond'] + (' [%s]' % ack['code'] if ack['code'] else '')
+                fail_conds[key] = fail_conds.get(key, 0) + 1
+            elif m['k'] >= 0:
                 points += 1
                 pf['crash_points'] += 1
                 pl['crash_points'] += 1
@@ -682,7 +692,9 @@ class MaildirPart:
             if clause:
                 per_clause.setdefault(clause, {'applicable': 0, 'failed': 0})['failed'] += 1
                 h = m['hist']
-                what = (f'maildir ({m["layout"]}): {clause} after a process kill between '
+                how = 'a process kill between' if m['fault'] == 'kill' else \
+                    f'a failing system call ({kill["errno"]} from {kill["before"]}) after'
+                what = (f'maildir ({m["layout"]}): {clause} after {how} '
                         f'{kill["after"]} and {kill["before"]} (operation {m["k"]} of {m["L"]}) of '
                         f'{m["line"]!r} [{h["family"]}; seed {json.dumps(h["seed"])}; selected '
                         f'{h["select"]}; other session: {h["other"]}]; acknowledged: {ack["cond"]} '
@@ -696,6 +708,7 @@ class MaildirPart:
                     what += f'; dump commands the restarted server refused: {m["failed"][:2]}'
                 run.violation(what, {'check': 'C14', 'maildir': True, 'hist': h,
                                      'layout': m['layout'], 'k': m['k'], 'seed': run.seed,
+                                     'fault': m['fault'],
                                      'clause': clause, 'events': ev}, None)
         for pf in per_family.values():
             pf['histories'] = len(pf['histories'])
@@ -714,6 +727,8 @@ class MaildirPart:
             'histories_run_to_completion_only': sum(1 for j in self.jobs if j['points'] == 0),
             'per_clause': per_clause, 'per_family': per_family, 'per_layout': per_layout,
             'kills_after_the_tagged_response': acked_kills,
+            'failing_system_calls': {'runs': sum(fails.values()), 'by_errno': dict(sorted(fails.items())),
+                                     'answers': dict(sorted(fail_conds.items()))},
             'multiappend_one_by_one_windows': windows,
             'runs_with_aged_lock_files': sum(r['aged_runs'] for r in results),
             'prefix_mismatch_runs': sum(r['prefix_mismatch'] for r in results),
@@ -844,9 +859,9 @@ def _md_selftests(traces: list, meta: list) -> list:
     """corrupt one value on the trace side; the observer must name the clause"""
     out = []
 
-    def pick(pred):
+    def pick(pred, fault='kill'):
         for t, m in zip(traces, meta):
-            if pred(t, m):
+            if (m.get('fault', 'kill') == 'kill') == (fault == 'kill') and pred(t, m):
                 return json.loads(json.dumps(t))
         return None
     # 1. a message present before is served nowhere after the restart
@@ -893,6 +908,21 @@ def _md_selftests(traces: list, meta: list) -> list:
         b = next(b for b in t[4]['boxes'] if b['msgs'])
         b['msgs'][0]['fl'] = sorted(set(b['msgs'][0]['fl']) ^ {'\\Answered'})
         out.append((t, 'C14_RefusedInert'))
+    # 7. failing system call: NO [TIMEOUT] after the lock file stayed behind and the command had
+    #    already moved / copied something - tolerated (open finding) only while nothing is lost ...
+    sig = lambda t, m: (t[3]['before'] == 'unlink(uidlist.lock)' and t[2]['cond'] == 'NO'   # noqa: E731
+                        and t[1]['op'] in ('move', 'copy') and t[1]['cids']
+                        and _md_show(t[0]) != _md_show(t[4]))
+    t = pick(sig, 'fail')
+    if t:
+        for b in t[4]['boxes']:
+            b['msgs'] = [x for x in b['msgs'] if x['c'] != t[1]['cids'][0]]
+        out.append((t, 'C14_NeverInLimbo'))
+    # 8. ... and only on its signature: the same outcome after another call failed is reported
+    t = pick(sig, 'fail')
+    if t:
+        t[3]['before'] = 'rename(TEMP->uidlist)'
+        out.append((t, 'C14_RefusedInert'))
     return out
 
 
@@ -912,13 +942,15 @@ def replay(path: str) -> int:
         tpl = os.path.join(store_root, 'tpl')
         mc.make_template(mc.Cfg(rp_['layout'], 'same', store_root, tmp), tpl, tmp, False)
         res = mc.run_job14({'cfg': (rp_['layout'], store_root, tmp), 'hist': rp_['hist'], 'hid': 0,
-                            'nonce': 'n%d' % rp_.get('seed', 0), 'template': tpl, 'points': None})
+                            'nonce': 'n%d' % rp_.get('seed', 0), 'template': tpl, 'points': None,
+                            'fail': 'all' if rp_.get('fault', 'kill') != 'kill' else None})
     finally:
         shutil.rmtree(store_root, ignore_errors=True)
     if res['machinery'] or not res['traces']:
         print('MACHINERY-ERROR', res['machinery'])
         return 2
-    tr = next((t for t in res['traces'] if t['k'] == rp_['k']), res['traces'][0])
+    tr = next((t for t in res['traces'] if t['k'] == rp_['k']
+               and t.get('fault', 'kill') == rp_.get('fault', 'kill')), res['traces'][0])
     verd, _vres = tlc.validate_total('Trace_ConserveKill.tla', 'Trace_ConserveKill.cfg',
                                      [tr['events']], known=sorted(Known('C14').open))
     for e in tr['events']:
